@@ -38,3 +38,110 @@ Definition chk_cov (c : Z) (rows : list (list Z)) (ddof : Z) (impl : list (list 
       (seq 0 k)) (seq 0 k)
   | _, _, _ => false
   end.
+
+(* ---- the PROVED bound (Num/CovF64.v, Props/C08_f64.v: C08_cov_entry_error_means_f64) evaluated
+   exactly over Q.  h = height of the dot-product evaluation (any order, fused or not), hm = height
+   of the summation trees of the means; every evaluation order of n terms has height <= n, so the
+   check instantiates h = hm = n. *)
+Definition u64Q : Q := Qmake 1 (Z.to_pos (2 ^ 53)).
+Definition eta64Q : Q := Qmake 1 (Z.to_pos (2 ^ 1075)).
+(* (1 + 2^-53)^k - 1 = ((2^53 + 1)^k - 2^(53 k)) / 2^(53 k) *)
+Definition g64Q (k : nat) : Q :=
+  let kz := Z.of_nat k in
+  Qmake ((2 ^ 53 + 1) ^ kz - 2 ^ (53 * kz)) (Z.to_pos (2 ^ (53 * kz))).
+Definition qasum (l : list Q) : Q := qsum (map Qabs l).
+Definition qmean (l : list Q) : Q := (qsum l / inject_Z (Z.of_nat (length l)))%Q.
+Definition qadev (l : list Q) : Q := let m := qmean l in qsum (map (fun v => Qabs (v - m)) l).
+Definition qaxy (x y : list Q) : Q :=
+  let mx := qmean x in let my := qmean y in
+  qsum (map (fun p => Qabs (fst p - mx) * Qabs (snd p - my)) (combine x y)).
+Definition mean_bound_Q (hm : nat) (x : list Q) : Q :=
+  (g64Q (hm + 1) * qasum x / inject_Z (Z.of_nat (length x)) + eta64Q)%Q.
+Definition cov_bound_Q (h n : nat) (ei ej : Q) (x y : list Q) (D : Q) : Q :=
+  let nq := inject_Z (Z.of_nat n) in
+  let covq := (qaxy x y + ej * qadev x + ei * qadev y + nq * ei * ej)%Q in
+  ((g64Q (h + 5) * covq + (1 + g64Q 2) * (nq * ei * ej + nq * (1 + g64Q h) * eta64Q)) / Qabs D + eta64Q)%Q.
+
+(* The same inequality evaluated WITHOUT rational arithmetic (gcd on 2000-bit numbers dominated the
+   run time): every quantity is multiplied by the power of n that makes it dyadic, and dyadic numbers
+   m * 2^e are pairs (m, e).  With s_i = sum_k x_ik, D = n - ddof, c = the implementation's entry:
+       |c - cxy / D| <= cov_bound h n e_i e_j x_i x_j D
+   <=> |n^2 c D - sum_k (n x_ik - s_i)(n x_jk - s_j)|
+         <= G5 (AXY + E_j AD_i + E_i AD_j + n E_i E_j) + (1 + G2)(n E_i E_j + n^3 (1 + G_h) eta) + n^2 eta |D|
+   where E_i = n e_i = G_m sum_k|x_ik| + n eta, AD_i = sum_k |n x_ik - s_i|, AXY = sum_k |n x_ik - s_i||n x_jk - s_j|. *)
+Definition dy := (Z * Z)%type.           (* (m, e) denotes m * 2^e *)
+Definition dadd (a b : dy) : dy :=
+  let e := Z.min (snd a) (snd b) in (Z.shiftl (fst a) (snd a - e) + Z.shiftl (fst b) (snd b - e), e)%Z.
+Definition dmul (a b : dy) : dy := (fst a * fst b, snd a + snd b)%Z.
+Definition dneg (a : dy) : dy := (- fst a, snd a)%Z.
+Definition dsub (a b : dy) : dy := dadd a (dneg b).
+Definition dabs (a : dy) : dy := (Z.abs (fst a), snd a).
+Definition dleb (a b : dy) : bool := (0 <=? fst (dsub b a))%Z.
+Definition dZ (z : Z) : dy := (z, 0%Z).
+Definition dsum (l : list dy) : dy := fold_left dadd l (0, 0)%Z.
+Definition f64_to_dy (x : F64) : option dy :=
+  match x with
+  | BinarySingleNaN.B754_zero _ => Some (0, 0)%Z
+  | BinarySingleNaN.B754_finite s m e _ => Some (if s then Zneg m else Zpos m, e)
+  | _ => None
+  end.
+Definition rows_dy (rows : list (list Z)) : option (list (list dy)) :=
+  all_some (map (fun r => all_some (map (fun b => f64_to_dy (f64_of_bits b)) r)) rows).
+Definition g64D (k : nat) : dy :=
+  let kz := Z.of_nat k in ((2 ^ 53 + 1) ^ kz - 2 ^ (53 * kz), - (53 * kz))%Z.
+Definition eta64D : dy := (1, -1075)%Z.
+Definition dentry (m : list (list dy)) (i j : nat) : dy := nth j (nth i m []) (0, 0)%Z.
+
+Definition chk_cov_proved (rows : list (list Z)) (ddof : Z) (impl : list (list Z)) : bool :=
+  match rows_dy rows, f64_to_dy (f64_of_bits ddof), rows_dy impl with
+  | Some rq, Some dq, Some iq =>
+    let n := length (hd [] rq) in
+    let nz := dZ (Z.of_nat n) in
+    let D := dsub nz dq in
+    let k := length rq in
+    let G5 := g64D (n + 5) in
+    let G2 := g64D 2 in
+    let Gh := g64D n in
+    let Gm := g64D (n + 1) in
+    let n2 := dmul nz nz in
+    let tail := dmul (dmul n2 nz) (dmul (dadd (dZ 1) Gh) eta64D) in      (* n^3 (1 + G_h) eta *)
+    let last := dmul n2 (dmul eta64D (dabs D)) in                          (* n^2 eta |D| *)
+    let sums := map dsum rq in
+    let cen := map (fun rs => map (fun v => dsub (dmul nz v) (snd rs)) (fst rs)) (combine rq sums) in  (* n x - s *)
+    let acen := map (map dabs) cen in
+    let ads := map dsum acen in
+    let Es := map (fun r => dadd (dmul Gm (dsum (map dabs r))) (dmul nz eta64D)) rq in
+    negb (Z.eqb (fst D) 0) &&
+    forallb (fun i =>
+      let Ei := nth i Es (0, 0)%Z in let adi := nth i ads (0, 0)%Z in
+      let ci := nth i cen [] in let ai := nth i acen [] in
+      forallb (fun j =>
+        let Ej := nth j Es (0, 0)%Z in let adj := nth j ads (0, 0)%Z in
+        let cj := nth j cen [] in let aj := nth j acen [] in
+        let cxy2 := dsum (map (fun p => dmul (fst p) (snd p)) (combine ci cj)) in       (* n^2 cxy *)
+        let axy2 := dsum (map (fun p => dmul (fst p) (snd p)) (combine ai aj)) in
+        let nee := dmul nz (dmul Ei Ej) in
+        let covq := dadd (dadd axy2 (dmul Ej adi)) (dadd (dmul Ei adj) nee) in
+        let rhs := dadd (dadd (dmul G5 covq) (dmul (dadd (dZ 1) G2) (dadd nee tail))) last in
+        let lhs := dabs (dsub (dmul n2 (dmul (dentry iq i j) D)) cxy2) in
+        dleb lhs rhs)
+      (seq 0 k)) (seq 0 k)
+  | _, _, _ => false
+  end.
+
+(* the rational form of the same check (slow; kept as the reference the dyadic form is compared with) *)
+Definition chk_cov_proved_Q (rows : list (list Z)) (ddof : Z) (impl : list (list Z)) : bool :=
+  match rows_Q rows, f64_to_Q (f64_of_bits ddof), rows_Q impl with
+  | Some rq, Some dq, Some iq =>
+    let n := length (hd [] rq) in
+    let exact := cov Q_ops qsum rq dq in
+    let D := (inject_Z (Z.of_nat n) - dq)%Q in
+    let k := length rq in
+    let ems := map (mean_bound_Q n) rq in
+    forallb (fun i =>
+      forallb (fun j =>
+        let bound := cov_bound_Q n n (nth i ems 0%Q) (nth j ems 0%Q) (nth i rq []) (nth j rq []) D in
+        Qle_bool (Qabs (qentry iq i j - qentry exact i j)) bound)
+      (seq 0 k)) (seq 0 k)
+  | _, _, _ => false
+  end.
